@@ -14,7 +14,7 @@ import (
 
 //verif:include ../dnsdata/rdb/zz_verif_model.go
 //verif:include ../db/zz_verif_world.go
-//verif:harness H02_e2e property=C02 native=no quick=world=0,edns=0;world=1,edns=0;world=2,edns=2 thorough=world=0,edns=2;world=1,edns=2;world=2,edns=0;world=3,edns=1
+//verif:harness H02_e2e property=C02 native=no quick=world=0,edns=0;world=1,edns=0;world=2,edns=2;world=4,edns=0 thorough=world=0,edns=2;world=1,edns=2;world=2,edns=0;world=3,edns=1
 
 func H02_e2e() {
 	world := nd.Param("world")
